@@ -58,6 +58,11 @@ func (c *Conn) Writev(bs net.Buffers) (int, error) {
 		cp = append(cp, b...)
 	}
 	c.Writes = append(c.Writes, cp)
+	// net.Buffers.WriteTo consumes the buffers it wrote: the elements of the caller's slice are set to nil
+	// (the real connection does exactly this, directly or from its writer goroutine)
+	for i := range bs {
+		bs[i] = nil
+	}
 	return len(cp), nil
 }
 
